@@ -98,7 +98,7 @@ Proof.
   rewrite Ec. unfold encode.
   destruct (pop_enc_spec s (h_size h1)) as (T1 & T2 & T3).
   destruct (pop_enc s (h_size h1)) as [enc s1]. cbn [fst snd] in *.
-  rewrite (add_suffix_plain c _ HP).
+  rewrite (suffix_if_plain c _ _ HP).
   match goal with |- context [mk_member s1 ?h (Some b) enc] => change h with (content_hdr h0 enc) end.
   assert (Hhb1 : hbok s1) by (unfold hbok; rewrite T3; exact Hhb).
   destruct (mk_member_spec s1 (content_hdr h0 enc) (Some b) enc Hhb1) as (A & B & C & D & E).
